@@ -23,7 +23,8 @@ CONSTANTS Bug,             \* "none" = the pipeline as designed; any other value
                            \* behaviour (negative controls: each must make TLC report the invariant it breaks)
           MaxDefects,      \* explore requests with at most this many simultaneous defects
           MaxValidations,  \* validations sharing one provider in a history
-          MaxPending       \* provider may answer Pending this many times (readiness and future)
+          MaxPending,      \* provider may answer Pending this many times (readiness and future)
+          AllowForever     \* TRUE: scripts may also pend forever (-1); such validations never complete
 
 Structural == {1, 2, 3, 5, 6, 7, 8, 9, 10, 11, 12, 13, 14}
 RuleSeq    == IF Bug = "scope_before_window" THEN <<1, 2, 3, 5, 6, 7, 8, 9, 10, 13, 14, 11, 12>>
@@ -60,8 +61,9 @@ Views == {q \in [defects : SUBSET AllDefects, carrier : Carriers,
 
 \* provider scripts: Pending count before readiness, readiness outcome, Pending count of the
 \* future, its answer
-Scripts == [readyIn : 0..MaxPending, ready : {"ok", "sigerr", "foreign"},
-            pendIn : 0..MaxPending, answer : {"ok", "sigerr", "foreign"},
+PendCounts == (0..MaxPending) \cup (IF AllowForever THEN {-1} ELSE {})
+Scripts == [readyIn : PendCounts, ready : {"ok", "sigerr", "foreign"},
+            pendIn : PendCounts, answer : {"ok", "sigerr", "foreign"},
             errKind : ProviderSigKinds]
 
 P(label) == <<label, 0>>
@@ -96,7 +98,7 @@ Pure(qq, sc) ==
     ELSE IF sc.answer = "foreign" THEN ErrR("InternalServiceError", 15)
     ELSE IF 16 \in qq.defects THEN ErrR("SignatureDoesNotMatch", 16)
     ELSE Ok
-PureCalls(qq, sc) == IF Failing(qq) = {} /\ sc.ready = "ok" THEN 1 ELSE 0
+PureCalls(qq, sc) == IF Failing(qq) = {} /\ sc.ready = "ok" /\ sc.readyIn # -1 THEN 1 ELSE 0
 
 \* ---------------------------------------------------------------- actions
 Init ==
@@ -144,8 +146,8 @@ RuleStep ==
 
 \* provider sub-protocol (tower::ServiceExt::oneshot): three separate, independently enabled steps
 PollReadyPending ==
-    /\ pc = P("ready") /\ prov.readyIn > 0
-    /\ prov' = [prov EXCEPT !.readyIn = @ - 1]
+    /\ pc = P("ready") /\ prov.readyIn # 0
+    /\ prov' = [prov EXCEPT !.readyIn = IF @ > 0 THEN @ - 1 ELSE @]
     /\ UNCHANGED <<pc, q, script, calls, result, nval, total>>
 PollReadyReady ==
     /\ pc = P("ready") /\ prov.readyIn = 0 /\ script.ready = "ok"
@@ -162,8 +164,8 @@ Call ==
     /\ pc' = P("await")
     /\ UNCHANGED <<q, script, prov, result, nval>>
 PollFuturePending ==
-    /\ pc = P("await") /\ prov.pendIn > 0
-    /\ prov' = [prov EXCEPT !.pendIn = @ - 1]
+    /\ pc = P("await") /\ prov.pendIn # 0
+    /\ prov' = [prov EXCEPT !.pendIn = IF @ > 0 THEN @ - 1 ELSE @]
     /\ UNCHANGED <<pc, q, script, calls, result, nval, total>>
 PollFutureOk ==
     /\ pc = P("await") /\ prov.pendIn = 0 /\ script.answer = "ok"
@@ -236,6 +238,10 @@ CallOnlyWhenReadyAct == [][calls' > calls => prov.readySeen]_vars
 OkSound == result.tag = "ok" => q.defects = {}
 \* C02 (control part): a request without defects is accepted when the provider answers
 Complete == (pc = P("done") /\ q.defects = {} /\ script.ready = "ok" /\ script.answer = "ok") => result.tag = "ok"
+\* C14: a provider that never becomes ready, or never answers, never yields a verdict - in particular no acceptance
+PendingNeverAccepts ==
+    /\ (script.readyIn = -1 /\ Failing(q) = {}) => (result.tag = "none" /\ calls = 0)
+    /\ (script.pendIn = -1 /\ script.readyIn # -1 /\ script.ready = "ok" /\ Failing(q) = {}) => result.tag = "none"
 \* C18 / C14: history independence - the outcome is a function of this validation's inputs only
 HistoryFree == pc = P("done") => (result = Pure(q, script) /\ total >= calls)
 TotalCalls == total <= nval + 1
